@@ -56,7 +56,10 @@ def helpers(ctx, rep):
         return
     rep.fn(w.name)
     rep.fn(p.name)
-    from mirq import expand_adaptors
+    from mirq import expand_adaptors, inline_calls
+    local = lambda d: d.startswith("insim_core::duration::") and "{closure" not in d and not d.endswith(("binrw_write_duration", "binrw_parse_duration"))
+    w = inline_calls(w, local, depth=3)          # private conversion helpers are part of the two functions
+    p = inline_calls(p, local, depth=3)
     w = expand_adaptors(w)          # `.map_err(..)?` and `match` spell the same control flow
     p = expand_adaptors(p)
     tf = w.calls_to(r"convert::TryFrom::try_from$")
